@@ -252,7 +252,7 @@ class NUTS(Sampler):
             # Metropolis step
             alpha2 = min(1, (n_prime/n)) #min(0, np.log(n_p) - np.log(n))
             if (s_prime == 1) and \
-                (np.random.rand() <= alpha2) and \
+                (np.random.rand() < alpha2) and \
                 (not np.isnan(logd_prime)) and \
                 (not np.isinf(logd_prime)):
                 self.current_point = point_prime
@@ -422,7 +422,7 @@ class NUTS(Sampler):
 
                 # Metropolis step
                 alpha2 = n_2prime / max(1, (n_prime + n_2prime))
-                if (np.random.rand() <= alpha2):
+                if (np.random.rand() < alpha2):
                     point_prime = np.copy(point_2prime)
                     logd_prime = np.copy(logd_2prime)
                     grad_prime = np.copy(grad_2prime)
